@@ -580,6 +580,74 @@ static void case_main(int ord, vf_rng *r)
     traj_del(&t);
 }
 
+/* --------------------------------------------------------------- the same evaluator called with the same (object, time) around a change of the object
+ * A caller that re-plans ONE object (chained segments, one scratch object for several axes, ctx->c[0] += offset) and evaluates it before and after calls
+ * the same function with the same argument values twice in one function.  If the header promises the compiler more than the evaluators keep - e.g. that
+ * they read nothing but their arguments (seeded change C15-L: `__attribute__((const))` on pos / vel / acc / jer, which read ctx->c[]) - the second call is
+ * merged with the first and returns the value of the OLD plan.  The library itself is byte-identical; only callers compiled with optimisation and the
+ * header in view see it.  Each function below is such a caller; the expected values come from a second object planned once (twin). */
+#define NOINL __attribute__((noinline))
+static NOINL void replan3(a_trajpoly3 *c, double ts, double const *a, double const *b, double x, double *o)
+{
+    a_trajpoly3_gen(c, ts, a[0], a[1], a[2], a[3]);
+    o[0] = a_trajpoly3_pos(c, x); o[1] = a_trajpoly3_vel(c, x); o[2] = a_trajpoly3_acc(c, x);
+    a_trajpoly3_gen(c, ts, b[0], b[1], b[2], b[3]);
+    o[3] = a_trajpoly3_pos(c, x); o[4] = a_trajpoly3_vel(c, x); o[5] = a_trajpoly3_acc(c, x);
+    c->c[0] += 0.5;
+    o[6] = a_trajpoly3_pos(c, x);
+}
+static NOINL void replan5(a_trajpoly5 *c, double ts, double const *a, double const *b, double x, double *o)
+{
+    a_trajpoly5_gen(c, ts, a[0], a[1], a[2], a[3], a[4], a[5]);
+    o[0] = a_trajpoly5_pos(c, x); o[1] = a_trajpoly5_vel(c, x); o[2] = a_trajpoly5_acc(c, x);
+    a_trajpoly5_gen(c, ts, b[0], b[1], b[2], b[3], b[4], b[5]);
+    o[3] = a_trajpoly5_pos(c, x); o[4] = a_trajpoly5_vel(c, x); o[5] = a_trajpoly5_acc(c, x);
+    c->c[0] += 0.5;
+    o[6] = a_trajpoly5_pos(c, x);
+}
+static NOINL void replan7(a_trajpoly7 *c, double ts, double const *a, double const *b, double x, double *o)
+{
+    a_trajpoly7_gen(c, ts, a[0], a[1], a[2], a[3], a[4], a[5], a[6], a[7]);
+    o[0] = a_trajpoly7_pos(c, x); o[1] = a_trajpoly7_vel(c, x); o[2] = a_trajpoly7_acc(c, x); o[7] = a_trajpoly7_jer(c, x);
+    a_trajpoly7_gen(c, ts, b[0], b[1], b[2], b[3], b[4], b[5], b[6], b[7]);
+    o[3] = a_trajpoly7_pos(c, x); o[4] = a_trajpoly7_vel(c, x); o[5] = a_trajpoly7_acc(c, x); o[8] = a_trajpoly7_jer(c, x);
+    c->c[0] += 0.5;
+    o[6] = a_trajpoly7_pos(c, x);
+}
+static NOINL void once3(a_trajpoly3 *c, double ts, double const *b, double x, double *o) { a_trajpoly3_gen(c, ts, b[0], b[1], b[2], b[3]); o[3] = a_trajpoly3_pos(c, x); o[4] = a_trajpoly3_vel(c, x); o[5] = a_trajpoly3_acc(c, x); }
+static NOINL void once5(a_trajpoly5 *c, double ts, double const *b, double x, double *o) { a_trajpoly5_gen(c, ts, b[0], b[1], b[2], b[3], b[4], b[5]); o[3] = a_trajpoly5_pos(c, x); o[4] = a_trajpoly5_vel(c, x); o[5] = a_trajpoly5_acc(c, x); }
+static NOINL void once7(a_trajpoly7 *c, double ts, double const *b, double x, double *o) { a_trajpoly7_gen(c, ts, b[0], b[1], b[2], b[3], b[4], b[5], b[6], b[7]); o[3] = a_trajpoly7_pos(c, x); o[4] = a_trajpoly7_vel(c, x); o[5] = a_trajpoly7_acc(c, x); o[8] = a_trajpoly7_jer(c, x); }
+static void case_replan(vf_rng *r)
+{
+    static char const *const Q[9] = {"pos", "vel", "acc", "pos", "vel", "acc", "pos-after-c0-changed", "jer", "jer"};
+    for (unsigned i = 0; i < BATCH / 4 + 1; ++i)
+    {
+        int const ord = 3 + 2 * (int)vf_below(r, 3);
+        double a[8], b[8], o[9] = {0}, w[9] = {0}, ts = vf_logu(r, -1, 1), x;
+        for (int k = 0; k < 8; ++k) { a[k] = vf_uniform(r, -10, 10); b[k] = vf_uniform(r, -10, 10); }
+        x = ts * vf_uniform(r, 0.05, 0.95);
+        vf_log("trajpoly%d: plan, evaluate at x=%a, re-plan the same object, evaluate at the same x, c[0] += 0.5, evaluate again", ord, x);
+        ++vf.evals;
+        VF_COUNT("trajpoly/evaluator-called-again-after-object-changed");
+        if (ord == 3) { a_trajpoly3 c, t; replan3(&c, ts, a, b, x, o); once3(&t, ts, b, x, w); }
+        else if (ord == 5) { a_trajpoly5 c, t; replan5(&c, ts, a, b, x, o); once5(&t, ts, b, x, w); }
+        else { a_trajpoly7 c, t; replan7(&c, ts, a, b, x, o); once7(&t, ts, b, x, w); }
+        for (int k = 3; k < 9; ++k)
+        {
+            double const want = k == 6 ? w[3] + 0.5 : w[k];
+            int const ok = k == 6 ? fabs(o[6] - want) <= 4 * DBL_EPSILON * (fabs(want) + 0.5) : memcmp(&o[k], &w[k], sizeof(double)) == 0;
+            if ((k == 7) || (k == 8 && ord != 7)) { continue; }
+            if (!ok)
+            {
+                char key[96];
+                snprintf(key, sizeof(key), "trajpoly%d/%s/value-of-the-previous-plan-after-the-object-changed", ord, Q[k]);
+                vf_viol(key, "trajpoly%d: %s(ctx, %a) = %a after the object was re-planned / changed in the same function; a second object planned once gives %a (first plan gave %a)", ord, Q[k], x, o[k],
+                        want, o[k == 6 ? 3 : k == 8 ? 7 : k - 3]);
+            }
+        }
+    }
+}
+
 static void case_exact(vf_rng *r)
 {
     static double const TS[3] = {1.0, 2.0, 0.5};
@@ -827,7 +895,7 @@ static void vf_case(uint64_t c, vf_rng *r)
     case 3:
     case 4:
     case 5: case_main(7, r); break;
-    case 6: case_exact(r); break;
+    case 6: case_exact(r); case_replan(r); break;
     default: case_poly(r); break;
     }
 }
